@@ -38,7 +38,7 @@ def run_r1(ctx, rule):
     facts = ctx.facts
     sites = []
     for f in facts.fns.values():
-        if f.crate == "ext" or not norm(f.id).startswith((DW, "<" + DWT)):
+        if f.crate in ("ext", "promoted") or not norm(f.id).startswith((DW, "<" + DWT)):
             continue
         for bb, t in f.calls():
             if is_sink_call(t):
@@ -160,7 +160,7 @@ def run_r4(ctx, rule):
     rule.check(len(takes) == 1, "check_io_error/take", "check_io_error moves the error out with Option::take (reported exactly once)", f.loc())
     # readers of io_error: only is_none tests and the take
     for f2 in facts.fns.values():
-        if f2.crate == "ext":
+        if f2.crate in ("ext", "promoted"):
             continue
         sy2 = sym(f2)
         for bb, t in f2.calls():
